@@ -93,3 +93,8 @@ ENTRIES += [
     N('host-list-case-frozenset', "        # Hostnames of parsed URLs are lowercase\n        self._accepted = [item.lower() for item in accepted or ()]\n        self._rejected = [item.lower() for item in rejected or ()]\n\n    def test(self, url_info, url_table_record):\n        test_domain = url_info.hostname\n        if self._accepted and not test_domain in self._accepted:",
       "        self._accepted = frozenset(item.casefold() for item in accepted or ())\n        self._rejected = frozenset(item.casefold() for item in rejected or ())\n\n    def test(self, url_info, url_table_record):\n        test_domain = url_info.hostname\n        if self._accepted and not test_domain in self._accepted:"),
 ]
+
+ENTRIES += [
+    B('regress-comma-list-empty-item', "items = list([item.strip() for item in items if item.strip()])", "items = list([item.strip() for item in items])", 'C02-D5', 'wpull/application/options.py'),
+    N('comma-list-filter-none', "items = list([item.strip() for item in items if item.strip()])", "items = list(filter(None, [item.strip() for item in items]))", 'wpull/application/options.py'),
+]
